@@ -33,7 +33,10 @@ func (reg *ResourceRegistry) ScanStorage(root string) error {
 		if err != nil {
 			return err
 		}
-		if !strings.HasPrefix(root, reg.storageDir.Path) {
+		// The root must be the storage dir or lie below it: compare with a
+		// trailing separator, so that siblings sharing the name prefix do not pass.
+		scope := strings.TrimSuffix(reg.storageDir.Path, string(filepath.Separator)) + string(filepath.Separator)
+		if root != reg.storageDir.Path && !strings.HasPrefix(root, scope) {
 			return errors.New("supplied scan root path not within storage")
 		}
 	}
